@@ -165,6 +165,23 @@ def _write(f, text):
         if f >= 0:
             os.write(f, text.encode('utf-8'))
         return
+    if hasattr(f, 'fileno'):
+        # a real child gets the file *descriptor* (subprocess calls fileno(), which e.g. makes exactly's spooled
+        # file roll over to disk): write through it, as the child would
+        try:
+            fd = f.fileno()
+        except Exception:  # noqa  (io.StringIO etc.: no descriptor)
+            fd = None
+        if fd is not None:
+            try:
+                f.flush()
+            except Exception:  # noqa
+                pass
+            data = text.encode('utf-8')
+            while data:
+                n = os.write(fd, data)
+                data = data[n:]
+            return
     if hasattr(f, 'write'):
         try:
             f.write(text)
